@@ -10,6 +10,9 @@ for d in sorted(os.listdir(os.path.join(V, "seeded"))):
     m = json.load(open(f))
     p = d.split("-")[0]
     det = m.get("detection", {}).get(p)
+    if m.get("retired"):
+        by[p].append((d, "retired: equivalent on the current tree", ""))
+        continue
     if not isinstance(det, dict):
         by[p].append((d, "not-run" if "note" not in m.get("detection", {}) else "patch-no-longer-applies", ""))
         continue
